@@ -6,6 +6,7 @@ import Pdpy11.Driver.Ea
 import Pdpy11.Driver.Directive
 import Pdpy11.Driver.Dec
 import Pdpy11.Driver.Container
+import Pdpy11.Driver.Listing
 namespace Pdpy11.Driver
 
 def handle (line : String) : String :=
@@ -28,6 +29,8 @@ def handle (line : String) : String :=
     | "wavhash" => handleWavHash args
     | "bin" => handleBin args
     | "wavread" => handleWavRead args
+    | "lst" => handleLst args
+    | "lstpath" => handleLstPath args
     | "ping" => "pong"
     | _ => "bad-op"
 
